@@ -74,6 +74,9 @@ pub struct Variant {
     /// standard output is a terminal
     #[serde(default)]
     pub stdout_tty: bool,
+    /// `--output` names the input file by another spelling of its path (`./x` for `x`)
+    #[serde(default)]
+    pub alias_spelling: bool,
     /// write `-l` together with the next short option (`-lf path`, `-lfpath`)
     #[serde(default)]
     pub combine_short: bool,
@@ -246,6 +249,7 @@ fn gen_variant(rng: &mut Rng, scn_targets: usize, doc: &Doc, mode: Mode) -> Vari
         stdout_tty: rng.chance(1, 5),
         input_sizeless: rng.chance(1, 8),
         combine_short: rng.chance(1, 3),
+        alias_spelling: rng.chance(1, 3),
     }
 }
 
@@ -431,7 +435,9 @@ pub fn build_exec(scn: &C20Scn, v: &Variant, text: &str) -> (Fs, Exec, Option<St
         }
         Output::SameAsInput { short_flag } => {
             let p = in_path.clone().expect("SameAsInput needs a file input");
-            opts.push(((if *short_flag { "-o" } else { "--output" }).into(), Some(p.clone())));
+            // the same file, possibly spelled differently
+            let spelled = if v.alias_spelling { format!("./{}", p.replacen('/', "//", 1)) } else { p.clone() };
+            opts.push(((if *short_flag { "-o" } else { "--output" }).into(), Some(spelled)));
             out_path = Some(p);
         }
     }
@@ -1035,6 +1041,9 @@ pub fn shrink_candidates(s: &C20Scn) -> Vec<C20Scn> {
         push(nv);
         let mut nv = v.clone();
         nv.combine_short = false;
+        push(nv);
+        let mut nv = v.clone();
+        nv.alias_spelling = false;
         push(nv);
         let mut nv = v.clone();
         nv.explicit_defaults = 0;
